@@ -158,6 +158,9 @@ func (w *dnsWorld) parseCacheKey(raw string) (dnsKey, bool) {
 		}
 	case strings.HasPrefix(scope, "asis"):
 		k.scope = len(w.ups)
+		if scope == "asis@"+w.asis2.String() {
+			k.scope = len(w.ups) + 1
+		}
 	}
 	return k, k.scope != -100
 }
